@@ -19,13 +19,15 @@ fn run_repl() {
         buffer.clear();
         print!(">>> ");
         io::stdout().flush().unwrap();
-        io::stdin().read_line(&mut buffer).unwrap();
+        // stop at the end of the input (e.g. ctrl+d)
+        if io::stdin().read_line(&mut buffer).unwrap() == 0 {
+            break;
+        }
 
-        // TODO: Error handling here
-        let ast = parse(&buffer).unwrap();
-        let code = compiler.compile_ast(&ast).unwrap();
-
-        match vm.run(code) {
+        let result = parse(&buffer)
+            .and_then(|ast| compiler.compile_ast(&ast))
+            .and_then(|code| vm.run(code));
+        match result {
             Ok(obj) => {
                 if obj != Object::null() {
                     println!("{obj}")
